@@ -406,6 +406,17 @@ class C01(Check):
                             if got != exp:
                                 acc.violation('record-decoded-differently-through-container:v3-header-time-words', {'kind': 'container-v3-header', 'numer': numer, 'denom': denom, 'minutes_west': mw, 'via': via},
                                               {'got': repr(got)[:200]})
+            # a version-3 thread map with an entry whose name is not UTF-8 (a multi-byte name cut at the 20th byte) followed by entries whose
+            # thread ids spell the events tag / the more-events tag
+            for tm in ([(5, 6, b'\xe2\x82\xac' * 6 + b'\xe2\x82'), (0x1e00, 7, 'x'), (1, 2, 'a')], [(5, 6, b'\xff' * 20), (0x2000, 7, 'y'), (0x1e00, 8, 'z')],
+                       [(0x1e00, 7, 'x'), (0x1d00, 7, 'w')]):
+                try:
+                    got = events(B.v3(tm, [recs[:1], recs[1:]]))
+                except Exception as ex:
+                    got = repr(ex)
+                acc.case(nontrivial=True, transitions=3)
+                if got != exp:
+                    acc.violation('record-decoded-differently-through-container:v3-thread-map-with-tag-like-thread-ids', {'kind': 'container-v3-threadmap', 'map': repr(tm)[:120]}, {'got': repr(got)[:200]})
             # a dump cut in the middle of a record (parsing it raises), then a complete dump, in the same process
             for cut in (1, 20, 63, 64 + 31):
                 whole = B.v2([], 0, [P[0], P[1], P[2]])
@@ -452,9 +463,19 @@ class C01(Check):
             # the record handed over as other bytes-like objects (bytearray, memoryview over a buffer that is REUSED afterwards): the
             # event keeps its own copy of what it decoded
             for k, b in enumerate(P):
-                for kind in ('bytearray', 'memoryview', 'memoryview-of-reused-buffer'):
+                for kind in ('bytearray', 'memoryview', 'memoryview-of-reused-buffer', 'memoryview-of-8-words', 'memoryview-of-16-half-words', 'array-of-8-words', 'ctypes-array-of-8-words'):
                     buf = bytearray(b)
                     arg = buf if kind == 'bytearray' else memoryview(buf)
+                    if kind == 'memoryview-of-8-words':
+                        arg = memoryview(buf).cast('Q')          # the same 64 bytes, seen as items of another size
+                    elif kind == 'memoryview-of-16-half-words':
+                        arg = memoryview(buf).cast('I')
+                    elif kind == 'array-of-8-words':
+                        import array
+                        arg = array.array('Q', bytes(buf))
+                    elif kind == 'ctypes-array-of-8-words':
+                        import ctypes
+                        arg = (ctypes.c_uint64 * 8).from_buffer_copy(bytes(buf))
                     try:
                         e = from_kd_buf(arg)
                         if kind == 'memoryview-of-reused-buffer':
